@@ -1066,7 +1066,7 @@ def run(tier):
         tfuts = {
             "aes": iopool.submit(tlc.validate_trace, S("Trace_AES.tla"), TRIV, rc.evs, sub("t_aes"), shards=sh, timeout=3000),
             "modes": iopool.submit(tlc.validate_trace, S("Trace_AESModes.tla"), TRIV, rm_events, sub("t_modes"), shards=16 if thorough else 12, timeout=3000, by="grp"),
-            "adapter": iopool.submit(tlc.validate_trace, S("Trace_Adapter.tla"), TRIV, ra.evs, sub("t_ad"), shards=8 if thorough else 3, timeout=3000),
+            "adapter": iopool.submit(tlc.validate_trace, S("Trace_Adapter.tla"), TRIV, ra.evs, sub("t_ad"), shards=12 if thorough else 8, timeout=3000),
         }
         res = {k: f.result() for k, f in tfuts.items()}
         for k in res:
